@@ -109,3 +109,6 @@ def run(run):
     else:
         run.bad("C13.T2", "circles-span-init", cat.file, "CIRCLES_SPAN is not built from (Circle::new(art.center(), art.radius(), false), span.localize())")
     run.assume("matching of a placed drawing against the catalogue (subset test at run time) is not decided")
+
+
+run_flow = run
